@@ -601,6 +601,36 @@ class Scenario:
         self.pending_frames = follow + self.pending_frames
         return op
 
+    def _nested_other(self, op, may_connect=True):
+        """the INNER block of a nested pair of session() blocks is for ANOTHER session: another namespace of the same
+        client (mostly; when the client has no other namespace yet it first connects to one), another client's, or a
+        pair that names no live session (the inner entry raises inside the outer block); the keys may coincide.
+        Followed by reads of both sessions."""
+        rng = self.rng
+        sid, ns = op['sid'], op['ns']
+        t = self.home.get(sid, (None, None))[0]
+        cands = {'other_ns': [(s2, n2) for (t2, n2), s2 in self.conn.items() if t2 == t and n2 != ns],
+                 'other_client': [(s2, n2) for (t2, n2), s2 in self.conn.items() if t2 != t],
+                 'no_such_session': [(sid, n2) for n2 in NS_POOL[:3] if n2 != ns and (t, n2) not in self.conn]}
+        free = [n for n in NS_POOL[:3] if (t, n) not in self.conn]
+        if (may_connect and not cands['other_ns'] and free and t in self.open and self.conn.get((t, ns)) == sid
+                and rng.random() < 0.8):
+            def later():
+                return self._nested_other(op, False) if self.conn.get((t, ns)) == sid else None
+            self.pending_frames = [later] + self.pending_frames
+            return {'op': 'frame', 't': t, 'text': pycodec.encode(0, rng.choice(free), None, None)[0]}
+        variant = weighted(rng, {k: w for k, w in (('other_ns', 8), ('other_client', 2), ('no_such_session', 1))
+                                 if cands[k]})
+        isid, ins = rng.choice(cands[variant])
+        op['inner'] = {'sid': isid, 'ns': ins}
+        op['_variant'] = variant
+        if rng.random() < 0.4:
+            op['k2'] = op['k']
+        self.pending_frames = [{'op': 'get_session', 'sid': sid, 'ns': ns}] + (
+            [{'op': 'get_session', 'sid': isid, 'ns': ins}] if variant != 'no_such_session' else []
+        ) + self.pending_frames
+        return op
+
     def _session_op(self, sid, ns):
         rng = self.rng
         p_during = self.profile.get('session_during_p', 0.0)       # opt-in per profile (C16)
@@ -613,8 +643,12 @@ class Scenario:
         if r < 0.6:
             return {'op': 'get_session', 'sid': sid, 'ns': ns}
         if r < 0.72:
-            return {'op': 'session_nested', 'sid': sid, 'ns': ns, 'k': rng.choice(['u', 'v']), 'v': G.gen_value(rng, 1, 0.0),
-                    'k2': rng.choice(['n', 'w']), 'v2': G.gen_value(rng, 1, 0.0)}
+            op = {'op': 'session_nested', 'sid': sid, 'ns': ns, 'k': rng.choice(['u', 'v']), 'v': G.gen_value(rng, 1, 0.0),
+                  'k2': rng.choice(['n', 'w']), 'v2': G.gen_value(rng, 1, 0.0)}
+            p_other = self.profile.get('session_nested_other_p', 0.0)      # opt-in per profile (C16)
+            if p_other and rng.random() < p_other:
+                return self._nested_other(op)
+            return op
         op = {'op': 'session_block', 'sid': sid, 'ns': ns, 'k': rng.choice(['u', 'v', 'n']),
               'v': G.gen_value(rng, 1, 0.0)}
         if rng.random() < 0.25:
